@@ -26,6 +26,7 @@ STAGES_TRUSTED = [
 ]
 NEG_DRV = {'file': 'native/init_negotiation.rs', 'attach': 'src/crypto/init.rs', 'test': 'negotiated_outcome_matches_the_property'}
 ISO_DRV = {'file': 'native/node_isolation.rs', 'attach': 'src/tests/common.rs', 'test': 'frames_go_exactly_to_the_selected_peers_once_and_are_never_relayed'}
+NONCE_DRV = {'file': 'native/core_nonce.rs', 'attach': 'src/crypto/core.rs', 'test': 'counters_never_wrap_onto_used_nonces'}
 BASE62_DRV = {'file': 'native/base62_long.rs', 'attach': 'src/util.rs', 'test': 'text_codec_round_trips_long_strings'}
 TABLE_MODEL = {'file': 'native/table_model.rs', 'attach': 'src/table.rs', 'test': 'table_matches_reference_model'}
 
@@ -202,6 +203,7 @@ PROPS['C04'] = {
             K(IB, 'nonce_halves_are_opposite', 'for all pairs of 160-bit salted hashes a != b both role expressions give the two ends opposite halves; a == b is stopped by the "Connected to self" test', fns=['crypto::init::InitState::handle_init (blocks: CryptoCore::new half argument x2, self test)']),
         ],
     },
+    'native_search': {r'kani::(core|coreblocks)::.*': NONCE_DRV},
     'trusted': [
         'unpredictability of the 48 random start bits (ring SystemRandom, stubbed by arbitrary bytes)',
         '"a rotated-in key is a fresh key" (ECDH) - key material is opaque here',
@@ -475,7 +477,7 @@ PROPS['C14'] = {
 # extraction or the verifier front end does not follow) is handed to all drivers of that property - the specific ones first, then these.
 # Drivers registered for a known finding are left out (they find their input on the unchanged tree by design).
 _EXTRA = {
-    'C01': [INIT_DRV, STAGES_DRV, ISO_DRV], 'C02': [ISO_DRV, WINDOW_DRV], 'C03': [WINDOW_DRV], 'C04': [WINDOW_DRV, ISO_DRV],
+    'C01': [INIT_DRV, STAGES_DRV, ISO_DRV], 'C02': [ISO_DRV, WINDOW_DRV, NONCE_DRV], 'C03': [WINDOW_DRV], 'C04': [NONCE_DRV, WINDOW_DRV],
     'C06': [NEG_DRV, INIT_DRV, STAGES_DRV], 'C08': [STAGES_DRV, ISO_DRV], 'C10': [ISO_DRV, TABLE_MODEL], 'C11': [TABLE_MODEL, ISO_DRV, NODE_PEERS_DRV],
     'C12': [TABLE_MODEL, NODE_PEERS_DRV, ISO_DRV], 'C13': [TABLE_MODEL, ISO_DRV, NODE_PEERS_DRV], 'C14': [SELF_DRV, STAGES_DRV, OWN_DRV],
     'C15': [NODE_PEERS_DRV], 'C16': [CODEC_DRV, INIT_DRV], 'C19': [ISO_DRV],
